@@ -116,6 +116,38 @@ static std::shared_ptr<IDRS> make_idrs(const Prm &p, long n, bool *native = 0) {
     return S;
 }
 
+// ------------------------------------------------------------------ labelled TEST in double precision (C05)
+// GMRES / FGMRES after k iterations of ONE cycle minimise the (preconditioned) residual norm over x0 + K_k.  The
+// reference is an independent dense least-squares minimiser in EXACT rational arithmetic (normal equations on the Krylov
+// basis); the real solver is run at double with maxiter = k, tol = abstol = 0, and its reported residual is compared
+// with the exact minimum up to 1e-6 * ||r0||.  This is a floating-point test on well-conditioned inputs, not a proof.
+typedef amgcl::backend::builtin<double> BackendD;
+struct PrecD {
+    typedef BackendD backend_type; typedef BackendD::matrix matrix;
+    int kind = 0; std::shared_ptr<amgcl::backend::numa_vector<double>> d; std::shared_ptr<matrix> M, A;
+    template <class V1, class V2> void apply(const V1 &rhs, V2 &&x) const {
+        if (kind == 0) amgcl::backend::copy(rhs, x);
+        else if (kind == 1) amgcl::backend::vmul(1.0, *d, rhs, 0.0, x);
+        else amgcl::backend::spmv(1.0, *M, rhs, 0.0, x);
+    }
+    const matrix& system_matrix() const { return *A; }
+};
+static std::shared_ptr<BackendD::matrix> crs_d(const Mat &A) {
+    std::vector<double> v(A.val.size()); for (size_t i = 0; i < v.size(); ++i) v[i] = A.val[i].v.get_d();
+    return std::make_shared<BackendD::matrix>((size_t)A.n, (size_t)A.m, A.ptr, A.col, v);
+}
+static bool solve_q(Dense G, std::vector<Q> b, std::vector<Q> &c) {      // exact Gaussian elimination, false if singular
+    size_t k = G.size(); c.assign(k, Q(0));
+    for (size_t col = 0; col < k; ++col) {
+        size_t p = col; while (p < k && G[p][col] == 0) ++p; if (p == k) return false;
+        std::swap(G[p], G[col]); std::swap(b[p], b[col]);
+        for (size_t i = col + 1; i < k; ++i) if (G[i][col] != 0) { Q fct = G[i][col] / G[col][col]; for (size_t j = col; j < k; ++j) G[i][j] -= fct * G[col][j]; b[i] -= fct * b[col]; }
+    }
+    for (size_t i = k; i-- > 0; ) { Q sum = b[i]; for (size_t j = i + 1; j < k; ++j) sum -= G[i][j] * c[j]; c[i] = sum / G[i][i]; }
+    return true;
+}
+static bool small_entries(const Dense &D, double bound) { for (auto &r : D) for (auto &x : r) if (std::fabs(x.v.get_d()) > bound) return false; return true; }
+
 // the private norm() of gmres / fgmres / lgmres / idrs: std::abs(sqrt(inner_product(x, x)))
 static Q nrmA(const std::vector<Q> &v) { return vq::abs(vq::sqrt(dot(v, v))); }
 static bool left_kind(const Prm &p) { return p.left && (p.solver == S_GMRES || p.solver == S_LGMRES || p.solver == S_BICGSTABL); }
@@ -189,6 +221,38 @@ static void oracle(const Prm &p, const CallData &d, const Out &o, Result &r, boo
         std::vector<std::vector<Q>> K2 = Kr; K2.push_back(dx);
         if (rank_of(K2) != rank_of(Kr)) r.fail("x_k - x0 not in the (preconditioned) Krylov space of dimension k = iters");
         r.tag("krylov_membership");
+    }
+    // C05, labelled TEST (double): residual-norm minimisation over the Krylov space (one cycle, no restart)
+    Dense Ainv, Pinv;
+    if (O_C05 && fresh_semantics && (p.solver == S_GMRES || p.solver == S_FGMRES) && o.it >= 1 && o.it <= p.M && n >= 1 && n <= 10
+            && small_entries(A, 1e3) && small_entries(PD, 1e3) && dinv(A, Ainv) && small_entries(Ainv, 1e3) && dinv(PD, Pinv) && small_entries(Pinv, 1e3)) {
+        const long k = o.it;
+        std::vector<std::vector<Q>> Kr; std::vector<Q> z = left_kind(p) ? r0p : dmv(PD, r0);
+        for (long i = 0; i < k; ++i) { Kr.push_back(z); z = dmv(PD, dmv(A, z)); }
+        // residual map: right/fgmres  y -> A y,  left  y -> P A y ;  target r0 resp. P r0
+        std::vector<std::vector<Q>> W; for (auto &kv : Kr) { std::vector<Q> w = dmv(A, kv); if (left_kind(p)) w = dmv(PD, w); W.push_back(w); }
+        Dense G(k, std::vector<Q>(k)); std::vector<Q> b(k), c;
+        for (long i = 0; i < k; ++i) { b[i] = dot(W[i], r0p); for (long j = 0; j < k; ++j) G[i][j] = dot(W[i], W[j]); }
+        if (solve_q(G, b, c)) {
+            std::vector<Q> rm = r0p; for (long i = 0; i < k; ++i) for (long t = 0; t < n; ++t) rm[t] -= c[i] * W[i][t];
+            double min_norm = std::sqrt(dot(rm, rm).v.get_d()), r0_norm = std::sqrt(dot(r0p, r0p).v.get_d());
+            // the real solver at double
+            auto Ad = crs_d(d.A); PrecD Pd; Pd.kind = d.pk; Pd.A = Ad;
+            if (d.pk == 1) { std::vector<double> dv(n); for (long i = 0; i < n; ++i) dv[i] = d.pd[i].v.get_d(); Pd.d = std::make_shared<amgcl::backend::numa_vector<double>>(dv); }
+            if (d.pk == 2) Pd.M = crs_d(d.PM);
+            std::vector<double> fd(n), xd(n); for (long i = 0; i < n; ++i) { fd[i] = d.f[i].v.get_d(); xd[i] = d.x0[i].v.get_d(); }
+            amgcl::backend::numa_vector<double> F(fd), X(xd);
+            size_t itd = 0; double resd = 0;
+            if (p.solver == S_GMRES) { amgcl::solver::gmres<BackendD>::params q; q.M = p.M; q.pside = side_of(p); q.maxiter = k; q.tol = 0; q.abstol = 0; q.ns_search = p.ns; amgcl::solver::gmres<BackendD> S(n, q); std::tie(itd, resd) = S(*Ad, Pd, F, X); }
+            else { amgcl::solver::fgmres<BackendD>::params q; q.M = p.M; q.maxiter = k; q.tol = 0; q.abstol = 0; q.ns_search = p.ns; amgcl::solver::fgmres<BackendD> S(n, q); std::tie(itd, resd) = S(*Ad, Pd, F, X); }
+            double nfd = tiny ? 1.0 : std::sqrt(dot(d.f, d.f).v.get_d());
+            double got = resd * nfd;
+            if (std::fabs(got - min_norm) > 1e-6 * std::max(r0_norm, 1e-300)) {
+                std::ostringstream m; m << "TEST(double): gmres residual after k=" << k << " iterations " << got << " != least-squares minimum over the Krylov space " << min_norm;
+                r.fail(m.str());
+            }
+            r.tag("ls_min_double_test");
+        }
     }
     // C05: exact preconditioner and exact root -> one iteration, exact solution
     bool exactP = n > 0 && is_identity(dmul(PD, A));
